@@ -85,6 +85,11 @@ PROPS["C23"] = dict(expect_probes=["roundtrip_ok", "truncation_rejected", "malfo
     level_note="Trusted: simrt/simio, href.DecodeChunked (tolerates chunk extensions and BWS, rejects empty/over-long/non-hex sizes and bare LF). Input-driven; the simulator contributes segmentation, zero reads and truncation.",
     technique="deterministic simulation: seeded segmentation/truncation of the byte stream feeding the real codec, differential against an executable RFC reference")
 
+PROPS["C48"] = dict(expect_probes=["c48_close_checked", "c48_response_checked", "c48_redirect_checked", "c48_finish_checked"], gomaxprocs=1, selftest_gomaxprocs=("1", "1", "1"), engine="C", runs=(1500, 60000), modes=[("nofault", 0.3), ("swarm", 0.7)], race=False, level="exploration", design="§6 Engine C / C48",
+    level_text="Whole-node simulation with generated filter chains (0-3 filters per callback point, a verdict per filter and request) registered through the real BfeCallbacks.AddFilter at HandleBeforeLocation / FoundProduct / AfterLocation / Forward / ReadResponse / RequestFinish. Every filter execution is logged; oracle: filters run in registration order up to and including the first non-continue verdict and none after (per pass); close => no bytes for that request and the connection ends; response / redirect => exactly that response and zero backend contacts; finish => a reply and then the connection closes.",
+    level_note="Trusted: simrt/simnet, href response parser, the generated filters (they log themselves). programs = filter chains; the simulation contributes the wire, keep-alive sequencing and backend-contact observation.",
+    technique="deterministic simulation: whole-node run with generated module filter chains, execution-order log + wire-level oracle")
+
 NOT_APPLICABLE = {
     "C10": "pure function of (host table, VIP table, Host header): no goroutine, clock, stream, file or peer takes part; the only thing to vary is input, which is generation, not simulation (DESIGN §7)",
     "C11": "basic-rule tree lookup is a pure function of (rule set, host, path); nothing to schedule or fault (DESIGN §7)",
